@@ -3,7 +3,7 @@ from fractions import Fraction
 
 import z3
 
-from .. import adapter, build as B, cands, engine, env, probe, ref, spec as S
+from .. import adapter, build as B, cands, engine, env, known, probe, ref, spec as S
 from ..runner import run_hypothesis
 
 ID = "C07"
@@ -75,6 +75,8 @@ def run_solver(spec, seed, kw):
         for args in printed:
             if args and isinstance(args[0], str) and "Found value:" in args[0]:
                 trace.append(int(args[0].split("Found value:")[1].split()[0]))
+            if args and isinstance(args[0], str) and "Reason:" in args[0] and "Unsatisfiable" not in args[0]:
+                h.unknown_seen = True  # z3 answered 'unknown' somewhere: the run is not a completed optimisation
     return h, sol, trace
 
 
@@ -109,7 +111,7 @@ def prop(ctx, case):
 
     def viol(rule, observed, extra=None):
         ctx.violation({"check": "C07.optimum", "rule": rule, "spec": spec, "seed": seed, "probe": dict({"kind": "optimisation"}, **(extra or {})),
-                       "observed": observed, "signature": {"rule": rule, "classes": engine.classes_of(spec), "objectives": sorted(o["type"] for o in spec["objectives"])}})
+                       "observed": observed, "signature": {"rule": rule, "classes": engine.classes_of(spec), "objectives": sorted(o["type"] for o in spec["objectives"]), **known.features(spec)}})
 
     multi = len(spec["objectives"]) > 1
     # (1) incremental, allowed to finish
@@ -125,6 +127,15 @@ def prop(ctx, case):
     if not sol1:
         ctx.event("infeasible_or_unknown")
         return
+    if getattr(h1, "unknown_seen", False):
+        ctx.event("z3_unknown_during_optimisation")
+        ctx.inconclusive += 1
+        return
+    from .c15 import classify
+    # the built-in optimiser is only compared inside the linear, array- and quantifier-free fragment: outside it
+    # z3.Optimize answers 'sat' with models that are not optimal (observed with polynomial costs, modulo
+    # constraints, concurrent AND array-based non-concurrent buffers); see DESIGN.md section 5
+    decidable = classify(spec) in ("idl", "lia")
     v1 = value_in_model(h1)
     if trace1 and trace1[-1] != v1:
         viol("returned_value_is_not_last_found", {"trace": trace1, "returned": v1})
@@ -153,20 +164,38 @@ def prop(ctx, case):
     try:
         h2, sol2, _ = run_solver(spec, seed + 2, {"optimizer": "optimize", "optimize_priority": "weight" if multi else ["pareto", "lex", "box", "weight"][seed % 4]})
         ctx.evaluation()
-        if sol2:
+        if sol2 and not decidable:
+            ctx.event("optimize_not_compared_outside_decidable_fragment")
+        elif sol2:
             if multi:
                 v2 = value_in_model(h2)
             else:
                 m2 = adapter._get(h2.solver, "_model")
                 v2 = m2.eval(target_var(h2), model_completion=True).as_long()
+            # z3 4.12.6's Optimize returns non-optimal models even on tiny linear problems (measured: 0,0,0,5,5 for
+            # five runs of one exported .smt2, see DESIGN.md section 5), so a WORSE built-in value is inconclusive.
+            # Decided instead: (i) the built-in optimiser never beats the incremental optimum, (ii) the objectives
+            # handed to z3 are the declared ones with the declared direction.
+            if (kind == "minimize" and v2 < v1) or (kind == "maximize" and v2 > v1):
+                viol("optimisers_disagree", {"incremental": v1, "optimize": v2, "kind": kind, "note": "built-in optimiser beats the 'optimal' incremental value"})
+                return
             if v2 != v1:
-                viol("optimisers_disagree", {"incremental": v1, "optimize": v2, "kind": kind})
+                ctx.event("builtin_optimiser_returned_non_optimal_value")
+                ctx.inconclusive += 1
+            else:
+                ctx.event("builtin_optimiser_agrees")
+            registered = [str(x) for x in adapter._get(h2.solver, "_solver").objectives()]
+            expected = str(target_var(h2)) if kind == "minimize" else str(-target_var(h2))
+            if registered != [expected]:
+                viol("objective_handed_to_z3_differs_from_declared", {"registered": registered, "expected": [expected], "kind": kind})
                 return
             sched2 = adapter.read_schedule(h2, adapter._get(h2.solver, "_model"))
             bad2 = ref.judge(spec, sched2).bad(VALID_FAMILIES)
             if bad2:
                 viol("optimize_schedule_invalid", engine.summarize_bad(bad2))
                 return
+        elif getattr(h2, "unknown_seen", False) or not decidable:
+            ctx.inconclusive += 1
         else:
             viol("optimize_found_no_solution_but_incremental_did", {"incremental": v1})
             return
@@ -212,6 +241,9 @@ def prop(ctx, case):
             viol("interrupted_solve_raised", repr(exc), {"max_iter": k})
             return
         ctx.evaluation()
+        if getattr(hk, "unknown_seen", False):
+            ctx.inconclusive += 1
+            continue
         if not solk:
             viol("interrupted_run_lost_the_solution", {"max_iter": k, "trace": tracek})
             return
@@ -241,6 +273,9 @@ def prop(ctx, case):
     finally:
         env.ps_solver.time = real_time
     ctx.evaluation()
+    if getattr(ht, "unknown_seen", False):
+        ctx.inconclusive += 1
+        return
     if not solt:
         viol("time_limited_run_lost_the_solution", {"trace": tracet})
         return
